@@ -81,6 +81,10 @@ def _check_case(ctx: Ctx, name: str, case: dict, res: dict, model: List[str], gu
             continue
         w = q.split()[0]
         ctx.count("op:" + w)
+        if w in ("isvc", "iapp") and len(q.split()) == 10:
+            ctx.count("install:" + ("configured" if q.split()[6] == "1" else "bare"))
+        if w in ("sapi", "aapi") and q.split()[2] in ("tick", "send"):
+            ctx.count(f"direct:{q.split()[2]}:{m}")
         if w in ("sreq", "areq"):
             ctx.count(f"req:{q.split()[2]}:{m}")
         elif m.startswith("recv"):
@@ -91,13 +95,18 @@ def _check_case(ctx: Ctx, name: str, case: dict, res: dict, model: List[str], gu
             raise RuntimeError(f"driver rejected line {q!r}")
     ctx.count("len:" + str(min(len(case["ops"]) // 10 * 10, 60)))
     ctx.count("focus:" + case.get("focus", "?"))
+    ctx.count("node:" + case["node"].get("kind", "computer"))
+    ctx.count("installs-refused", res.get("refused", 0))
+    ctx.count("installs-replacing", res.get("replaced", 0))
     # the property's oracles on the implementation
     seen_kinds = set()
     for (i, kind, detail, extra) in res["oracle"]:
+        # (signature kinds differ on purpose from those of the repaired findings F-22 / F-23, whose open entries may still
+        # be in known_findings.json: a regression must be reported as a VIOLATION, not as a known finding)
         if kind == "payload-handled-while-not-running":
-            sig = {"kind": kind, "cls": extra}
+            sig = {"kind": "not-running-software-acted", "cls": extra}
         else:
-            sig = {"kind": kind, "after_duplicate_install": bool(extra)}
+            sig = {"kind": kind, "after_reinstall": bool(extra)}
         key = json.dumps(sig, sort_keys=True)
         if key in seen_kinds:
             continue
@@ -191,7 +200,7 @@ def run(ctx: Ctx):
             ran = p["states"].get("RUNNING", {})
             ctx.count("probe-running-baseline:" + ("handled" if (ran.get("ret") or ran.get("sent") or ran.get("changed")) else "not-handled"))
         if leaks:
-            ctx.violation({"kind": "payload-handled-while-not-running", "cls": r["cls"]},
+            ctx.violation({"kind": "not-running-software-acted", "cls": r["cls"], "via": "receive-probe"},
                           f"{r['cls']}.receive processes a payload while {','.join(leaks)}", {"probe": r["cls"], "result": p})
         if leaks and guards.get(r["cls"], False):
             ctx.oblige(f"gen-cross-check:{r['cls']} receive-guard", "extractor", False,
